@@ -6,14 +6,14 @@ import json, os, subprocess
 VERIF = os.path.dirname(os.path.dirname(os.path.abspath(__file__)))
 
 TRUST = ("Trusted: Coq 8.16.1 kernel + vm_compute (no native_compute); Print Assumptions of every property theorem: "
-         "closed under the global context (no axioms); translator tools/gen_src.py; extraction (ExtrOcamlBasic only, "
+         "closed under the global context (no axioms); translators tools/gen_src.py, tools/gen_mut.py, tools/gen_seedwit.py (witness data only); extraction (ExtrOcamlBasic only, "
          "no Extract Constant/Inductive of our own) + OCaml driver + Rust harness as unverified glue; reference machine "
          "and lexer are my reading of CPython pickletools (table generated from pickletools.opcodes). ")
 
 CLAIMS = {
     'C01': dict(
         text="Theorem C01_tokens (Coq): every run of the envelope model run_R is accepted by the dis-style reference machine, by the refinement step_refines (68 opcode cases) lifted through body, collapse tail and STOP; tie: translator-regenerated can_emit/rows proved equal to the model (SrcEquiv), suite S1 (every recorded implementation step must be a member of the envelope and reproduce sim_step), oracle = extracted ref machine over implementation outputs.",
-        note="hand-modelled process_stack_ops/emitters/cleanup tied by suite S1 on sampled traces.",
+        note="hand-modelled process_stack_ops/emitters/cleanup tied by suite S1 on recorded traces and by S8 (every small simulated state built by hand, one step of every opcode).",
         technique="refinement proof in Coq + translator tie + step-wise correspondence"),
     'C02': dict(
         text="Theorem C02_tokens: memo_ok holds before every step of the reference run (memo clauses of the refinement; PUT index = |memo| is fresh by the key-sequence invariant, GET index is a key in safe mode); tie as C01.",
